@@ -334,6 +334,10 @@ class Harness:
         """Python `a is b`."""
         return self.it.identical(a, b)
 
+    def contains(self, container, item):
+        """Python `item in container` (bool / SBool)."""
+        return self.it.contains(container, item)
+
     # -- logic -------------------------------------------------------------------------------
     def assume(self, c, why=None):
         self.path.assume(c, why)
@@ -537,6 +541,9 @@ class NativeHarness:
     def same(self, a, b):
         return a is b
 
+    def contains(self, container, item):
+        return item in container
+
     def assume(self, c, why=None):
         if not bool(c):
             self.assume_violations.append(why or "assumption")
@@ -576,3 +583,79 @@ def decode_native(v):
             return bytes(v["__str_utf8__"]).decode("utf-8")
         return v
     return v
+
+
+# ----------------------------------------------------------------------------------------------
+# concrete reading inside the pyvc interpreter (conformance of the VC generator against CPython)
+
+
+class SkipConformance(Exception):
+    pass
+
+
+class ConcreteHarness(Harness):
+    """Same proof script, inputs concrete (taken from a recorded native run), code executed by the pyvc
+    interpreter.  Every `oblige` condition must evaluate to the same truth value as in the native run
+    of the real package under CPython; a difference is a bug of the VC generator (checker error)."""
+
+    def __init__(self, interp, oset_name, inputs):
+        super().__init__(interp, oset_name)
+        self.inputs_in = inputs
+        self.outcomes = []
+
+    def _in(self, name):
+        if name not in self.inputs_in:
+            raise SkipConformance(f"no recorded value for {name}")
+        return self.inputs_in[name]
+
+    def int(self, name, lo=None, hi=None):
+        return int(self._in(name))
+
+    def byte(self, name):
+        return int(self._in(name))
+
+    def bool(self, name):
+        return bool(self._in(name))
+
+    def real(self, name, lo=None, hi=None):
+        return float(self._in(name))
+
+    def tenths(self, name, lo_k, hi_k):
+        return float(self._in(name))
+
+    def bytes(self, name, n, mutable=False):
+        v = self._in(name)
+        return BytesVal(list(v["__bytes__"]), mutable)
+
+    def abytes(self, name, ln=None, min_len=0, max_len=None):
+        raise SkipConformance("symbolic-length buffers are exercised through loop contracts only")
+
+    def enum(self, name, cls, only=None, exclude=()):
+        if isinstance(cls, str):
+            cls = self.get(cls)
+        v = self._in(name)
+        return cls.members[v["name"]]
+
+    def choice(self, name, options):
+        return options[int(self._in("case:" + name))]
+
+    def string(self, name, nbytes, no_nul=True, exclude_bytes=()):
+        return bytes(self._in(name)["__str_utf8__"]).decode("utf-8")
+
+    def assume(self, c, why=None):
+        if c is not True and not (isinstance(c, SBool) and bool(c)):
+            raise SkipConformance("assumption not satisfied by the sample")
+
+    def oblige(self, name, cond, detail=None, kind="post"):
+        self.outcomes.append((name, bool(cond)))
+        return bool(cond)
+
+    def fail(self, name, detail=None):
+        self.outcomes.append((name, False))
+        return False
+
+    def branch(self, c):
+        return bool(c)
+
+    def cover(self, name):
+        pass
